@@ -135,6 +135,27 @@ def chk_builds(inp):
                 if M.shape != refl.shape or not numpy.array_equal(M, refl):
                     return bad("%d sensor(s), %d layers (more layers than sensor pairs), %d workers: matrix is not bit-identical to the single-process one" % (n_wfs, n_layers, t),
                                int((M != refl).sum()) if M.shape == refl.shape else list(M.shape), 0)
+    if not (inp and inp.get("no_schedules")):
+        # configuration given as float64 ndarrays (what the docstring asks for); rebuilds on one object; n_layers a prefix of a longer profile
+        rng = numpy.random.default_rng(23)
+        masks = [(rng.random((5, 5)) > 0.35).astype(float), aotools.circle(2.5, 5), aotools.circle(2, 5)]
+        def build(threads, n_layers):
+            gs = numpy.array([[10., 0.], [-5., 8.], [3., -12.]])
+            return aotools.CovarianceMatrix(3, [m.copy() for m in masks], 4.0, numpy.array([0.8, 0.8, 0.8]), numpy.array([0., 90000., 0.]), gs, numpy.array([5e-7, 6e-7, 5.5e-7]),
+                                            n_layers, numpy.array([0., 4000., 11000., 15000.]), numpy.array([0.2, 0.4, 0.3, 0.25]), numpy.array([25., 15., 30., 20.]), threads), gs
+        for n_layers in (4, 3, 2):
+            ref_nd = build(1, n_layers)[0].make_covariance_matrix().copy()
+            for seq in ([1, 1], [1, 2, 1], [2, 1, 2], [3, 3]):
+                cm, gs = build(seq[0], n_layers)
+                gs0 = gs.copy()
+                for k, t in enumerate(seq):
+                    cm.threads = t
+                    M = cm.make_covariance_matrix()
+                    if M.shape != ref_nd.shape or not numpy.array_equal(M, ref_nd):
+                        return bad("ndarray configuration, %d of 4 profile layers used: build %d of the sequence threads=%s is not bit-identical to the single-process matrix of a fresh object" % (n_layers, k, seq),
+                                   int((M != ref_nd).sum()) if M.shape == ref_nd.shape else list(M.shape), 0)
+                    if not numpy.array_equal(gs, gs0):
+                        return bad("make_covariance_matrix modified the guide-star position array it was configured with (state carried into the next build)")
     for kind in kinds:
         ref = system(kind, 1).make_covariance_matrix().copy()
         for seq in ([1, 1], [2, 2], [1, 2, 1], [3, 1, 1, 2]):
